@@ -239,6 +239,12 @@ def operators(trace, tier, for_c19=False):
                     f = dict(base)
                     f[op] = encode_stream(e2)
                     yield ("nojumbo:%s:%d:%d" % (rel, i, sz), f, "invalid")
+                # a normal payload crafted to look like well-formed jumbo data if read as such
+                e2 = list(evs)
+                e2[i] = (m, c, u32(8) + j[:4] + b"ab\0\0" + bytes(4), None)
+                f = dict(base)
+                f[op] = encode_stream(e2)
+                yield ("nojumbo:%s:%d:crafted" % (rel, i), f, "invalid")
         # --- metadata
         meta = s["meta"]
         others = [t["meta"] for r2, t in trace.items() if r2 != rel]
